@@ -9,8 +9,13 @@
    (tol_exact: p exactly on the edge or not within the tolerance -- a premise, discharged for
    exact on-edge points of long edges in Lemmas/Tolerance.v when present).  Curved boundaries:
    the code replaces arcs by chords at the control-point count (known finding F12) -- oracle
-   only.  The arctan2 angle sum of the code is idealised as the crossing number (trusted). *)
-From SV Require Import Spec.Spec Lemmas.Winding Lemmas.C02Glue Lemmas.Safe Lemmas.Constancy.
+   only.  The arctan2 angle sum of the code is idealised as the crossing number (trusted).
+   For strictly convex counter-clockwise polygons the specification itself is tied to the
+   elementary definition of the region (C02_convex_*: winding number 1 iff strictly left of every
+   edge, 0 iff strictly right of some edge, otherwise on the boundary) -- a check of Spec against
+   geometry that does not go through winding numbers (Lemmas/Convex.v). *)
+From Coq Require Import List.
+From SV Require Import Spec.Spec Lemmas.Winding Lemmas.C02Glue Lemmas.Safe Lemmas.Constancy Lemmas.Convex.
 Open Scope Q_scope.
 
 Theorem C02_polygon : forall S p b,
@@ -64,6 +69,21 @@ Theorem C02_wn_inserted_vertex : forall j1 j2 a b t p, 0 < t -> t < 1 ->
   wn_lines (j1 ++ [a; m] :: [m; b] :: j2) p = wn_lines (j1 ++ [a; b] :: j2) p.
 Proof. exact wn_lines_split_seg. Qed.
 Print Assumptions C02_wn_inserted_vertex.
+
+(* strictly convex counter-clockwise polygons: the winding number IS the half-plane definition *)
+Theorem C02_convex_inside : forall vs q, convex_ccw_b vs = true ->
+  (forall e, In e (edges_of vs) -> 0 < orient (fst e) (snd e) q) -> wn_lines (poly_of vs) q = 1%Z.
+Proof. exact convex_inside. Qed.
+Theorem C02_convex_outside : forall vs q, convex_ccw_b vs = true ->
+  (exists e, In e (edges_of vs) /\ orient (fst e) (snd e) q < 0) -> wn_lines (poly_of vs) q = 0%Z.
+Proof. exact convex_outside. Qed.
+Theorem C02_convex_boundary : forall vs q, convex_ccw_b vs = true ->
+  (forall e, In e (edges_of vs) -> 0 <= orient (fst e) (snd e) q) ->
+  (exists e, In e (edges_of vs) /\ orient (fst e) (snd e) q == 0) -> on_boundary (poly_of vs) q = true.
+Proof. exact convex_boundary. Qed.
+Print Assumptions C02_convex_inside.
+Print Assumptions C02_convex_outside.
+Print Assumptions C02_convex_boundary.
 
 (* non-vacuity: the 4x4 square, an interior, a boundary and an exterior point *)
 Example C02_nonvacuous : forall p b, In p [p_in; p_bd; p_out] ->
